@@ -264,7 +264,7 @@ def cache_texts(ds):
     coll = []
     coll.append(("agencies.capnpbin", "agencyCollection.capnp", "AgencyCollection",
                  "(agencies = %s)" % _lst("(uuid = %s, acronym = %s, name = %s, isEnabled = 1)"
-                                          % (_q(U(K_AGENCY, a)), _q("a%d" % a), _q("a%d" % a)) for a in agencies)))
+                                          % (_q(U(K_AGENCY, a)), _q("a%d" % a), _q("agency %d" % a)) for a in agencies)))
     coll.append(("services.capnpbin", "serviceCollection.capnp", "ServiceCollection",
                  "(services = %s)" % _lst("(uuid = %s, name = %s, monday = 1, tuesday = 1, wednesday = 1, thursday = 1, "
                                           "friday = 1, saturday = 1, sunday = 1, isEnabled = 1)"
